@@ -8,6 +8,7 @@ how its template, extracted from /repo, reads as guard / wrapper / per-field exp
 namespace Soa.Sk.Expected
 open Soa.Sk
 
+-- scope C12
 def exp_PVec_with_capacity : Sk :=
   Soa.Sk.Sk.lit
     { guard := none, emptyNone := false, nullNone := false, md := none, unsafeBlk := false }
@@ -19,12 +20,14 @@ def exp_PVec_with_capacity : Sk :=
         [Soa.Sk.Arg.param 0]))
     false
 
+-- scope C12
 def exp_PVec_capacity : Sk :=
   Soa.Sk.Sk.minFold
     "capacity"
     (Soa.Sk.Item.minAssign "capacity" (Soa.Sk.FE.call "capacity" [] (Soa.Sk.Post.none)))
     (Soa.Sk.Item.minAssign "capacity" (Soa.Sk.FE.call "capacity" [] (Soa.Sk.Post.none)))
 
+-- scope C12
 def exp_PVec_reserve : Sk :=
   Soa.Sk.Sk.stmts
     { guard := none, emptyNone := false, nullNone := false, md := none, unsafeBlk := false }
@@ -32,6 +35,7 @@ def exp_PVec_reserve : Sk :=
     (Soa.Sk.Item.stmt (Soa.Sk.FE.call "reserve" [Soa.Sk.Arg.param 0] (Soa.Sk.Post.none)))
     none
 
+-- scope C12
 def exp_PVec_reserve_exact : Sk :=
   Soa.Sk.Sk.stmts
     { guard := none, emptyNone := false, nullNone := false, md := none, unsafeBlk := false }
@@ -39,6 +43,7 @@ def exp_PVec_reserve_exact : Sk :=
     (Soa.Sk.Item.stmt (Soa.Sk.FE.call "reserve_exact" [Soa.Sk.Arg.param 0] (Soa.Sk.Post.none)))
     none
 
+-- scope C12
 def exp_PVec_shrink_to_fit : Sk :=
   Soa.Sk.Sk.stmts
     { guard := none, emptyNone := false, nullNone := false, md := none, unsafeBlk := false }
@@ -46,6 +51,7 @@ def exp_PVec_shrink_to_fit : Sk :=
     (Soa.Sk.Item.stmt (Soa.Sk.FE.call "shrink_to_fit" [] (Soa.Sk.Post.none)))
     none
 
+-- scope C01
 def exp_PVec_push : Sk :=
   Soa.Sk.Sk.stmts
     { guard := none, emptyNone := false, nullNone := false, md := some 0, unsafeBlk := true }
@@ -53,18 +59,21 @@ def exp_PVec_push : Sk :=
     (Soa.Sk.Item.stmt (Soa.Sk.FE.call "push" [Soa.Sk.Arg.moveIn 0] (Soa.Sk.Post.none)))
     none
 
+-- scope C01
 def exp_PVec_len : Sk :=
   Soa.Sk.Sk.firstChecked
     "len"
     (Soa.Sk.Item.dbgAssertEq (Soa.Sk.FE.call "len" [] (Soa.Sk.Post.none)) "len")
     (Soa.Sk.Item.dbgAssertEq (Soa.Sk.FE.call "len" [] (Soa.Sk.Post.none)) "len")
 
+-- scope C01
 def exp_PVec_is_empty : Sk :=
   Soa.Sk.Sk.firstChecked
     "is_empty"
     (Soa.Sk.Item.dbgAssertEq (Soa.Sk.FE.call "is_empty" [] (Soa.Sk.Post.none)) "empty")
     (Soa.Sk.Item.dbgAssertEq (Soa.Sk.FE.call "is_empty" [] (Soa.Sk.Post.none)) "empty")
 
+-- scope C01
 def exp_PVec_swap_remove : Sk :=
   Soa.Sk.Sk.lets
     { guard := none, emptyNone := false, nullNone := false, md := none, unsafeBlk := false }
@@ -75,6 +84,7 @@ def exp_PVec_swap_remove : Sk :=
     false
     none
 
+-- scope C01
 def exp_PVec_insert : Sk :=
   Soa.Sk.Sk.stmts
     { guard := some (">", 0), emptyNone := false, nullNone := false, md := some 1, unsafeBlk := true }
@@ -82,6 +92,7 @@ def exp_PVec_insert : Sk :=
     (Soa.Sk.Item.stmt (Soa.Sk.FE.call "insert" [Soa.Sk.Arg.param 0, Soa.Sk.Arg.moveIn 1] (Soa.Sk.Post.none)))
     none
 
+-- scope C01
 def exp_PVec_replace : Sk :=
   Soa.Sk.Sk.lets
     { guard := some (">=", 0), emptyNone := false, nullNone := false, md := some 1, unsafeBlk := false }
@@ -95,6 +106,7 @@ def exp_PVec_replace : Sk :=
     false
     none
 
+-- scope C01
 def exp_PVec_remove : Sk :=
   Soa.Sk.Sk.lets
     { guard := none, emptyNone := false, nullNone := false, md := none, unsafeBlk := false }
@@ -105,6 +117,7 @@ def exp_PVec_remove : Sk :=
     false
     none
 
+-- scope C01
 def exp_PVec_pop : Sk :=
   Soa.Sk.Sk.lets
     { guard := none, emptyNone := true, nullNone := false, md := none, unsafeBlk := false }
@@ -115,6 +128,7 @@ def exp_PVec_pop : Sk :=
     true
     none
 
+-- scope C01
 def exp_PVec_append : Sk :=
   Soa.Sk.Sk.stmts
     { guard := none, emptyNone := false, nullNone := false, md := none, unsafeBlk := false }
@@ -122,6 +136,7 @@ def exp_PVec_append : Sk :=
     (Soa.Sk.Item.stmt (Soa.Sk.FE.call "append" [Soa.Sk.Arg.fieldMut 0] (Soa.Sk.Post.none)))
     none
 
+-- scope C01
 def exp_PVec_split_off : Sk :=
   Soa.Sk.Sk.lit
     { guard := none, emptyNone := false, nullNone := false, md := none, unsafeBlk := false }
@@ -130,6 +145,7 @@ def exp_PVec_split_off : Sk :=
     (Soa.Sk.Item.init (Soa.Sk.FE.call "split_off" [Soa.Sk.Arg.param 0] (Soa.Sk.Post.none)))
     false
 
+-- scope C05
 def exp_PVec_as_slice : Sk :=
   Soa.Sk.Sk.lit
     { guard := none, emptyNone := false, nullNone := false, md := none, unsafeBlk := false }
@@ -138,6 +154,7 @@ def exp_PVec_as_slice : Sk :=
     (Soa.Sk.Item.init (Soa.Sk.FE.call "as_slice" [] (Soa.Sk.Post.none)))
     false
 
+-- scope C05
 def exp_PVec_as_mut_slice : Sk :=
   Soa.Sk.Sk.lit
     { guard := none, emptyNone := false, nullNone := false, md := none, unsafeBlk := false }
@@ -146,6 +163,7 @@ def exp_PVec_as_mut_slice : Sk :=
     (Soa.Sk.Item.init (Soa.Sk.FE.call "as_mut_slice" [] (Soa.Sk.Post.none)))
     false
 
+-- scope C05
 def exp_PVec_slice : Sk :=
   Soa.Sk.Sk.lit
     { guard := none, emptyNone := false, nullNone := false, md := none, unsafeBlk := false }
@@ -154,6 +172,7 @@ def exp_PVec_slice : Sk :=
     (Soa.Sk.Item.init (Soa.Sk.FE.call "slice" [Soa.Sk.Arg.paramClone 0] (Soa.Sk.Post.none)))
     false
 
+-- scope C05
 def exp_PVec_slice_mut : Sk :=
   Soa.Sk.Sk.lit
     { guard := none, emptyNone := false, nullNone := false, md := none, unsafeBlk := false }
@@ -162,6 +181,7 @@ def exp_PVec_slice_mut : Sk :=
     (Soa.Sk.Item.init (Soa.Sk.FE.call "slice_mut" [Soa.Sk.Arg.paramClone 0] (Soa.Sk.Post.none)))
     false
 
+-- scope C10
 def exp_PVec_as_ptr : Sk :=
   Soa.Sk.Sk.lit
     { guard := none, emptyNone := false, nullNone := false, md := none, unsafeBlk := false }
@@ -170,6 +190,7 @@ def exp_PVec_as_ptr : Sk :=
     (Soa.Sk.Item.init (Soa.Sk.FE.call "as_ptr" [] (Soa.Sk.Post.none)))
     false
 
+-- scope C10
 def exp_PVec_as_mut_ptr : Sk :=
   Soa.Sk.Sk.lit
     { guard := none, emptyNone := false, nullNone := false, md := none, unsafeBlk := false }
@@ -178,6 +199,7 @@ def exp_PVec_as_mut_ptr : Sk :=
     (Soa.Sk.Item.init (Soa.Sk.FE.call "as_mut_ptr" [] (Soa.Sk.Post.none)))
     false
 
+-- scope C10
 def exp_PVec_from_raw_parts : Sk :=
   Soa.Sk.Sk.lit
     { guard := none, emptyNone := false, nullNone := false, md := none, unsafeBlk := false }
@@ -192,6 +214,7 @@ def exp_PVec_from_raw_parts : Sk :=
         [Soa.Sk.Arg.field 0, Soa.Sk.Arg.param 1, Soa.Sk.Arg.param 2]))
     false
 
+-- scope C15
 def exp_P_as_ref : Sk :=
   Soa.Sk.Sk.lit
     { guard := none, emptyNone := false, nullNone := false, md := none, unsafeBlk := false }
@@ -200,6 +223,7 @@ def exp_P_as_ref : Sk :=
     (Soa.Sk.Item.init (Soa.Sk.FE.call "as_ref" [] (Soa.Sk.Post.none)))
     false
 
+-- scope C15
 def exp_P_as_mut : Sk :=
   Soa.Sk.Sk.lit
     { guard := none, emptyNone := false, nullNone := false, md := none, unsafeBlk := false }
@@ -208,6 +232,7 @@ def exp_P_as_mut : Sk :=
     (Soa.Sk.Item.init (Soa.Sk.FE.call "as_mut" [] (Soa.Sk.Post.none)))
     false
 
+-- scope C15
 def exp_PRef_a_to_owned : Sk :=
   Soa.Sk.Sk.lit
     { guard := none, emptyNone := false, nullNone := false, md := none, unsafeBlk := false }
@@ -219,6 +244,7 @@ def exp_PRef_a_to_owned : Sk :=
         [Soa.Sk.Arg.other ["self", ".§"]]))
     false
 
+-- scope C15
 def exp_PRefMut_a_to_owned : Sk :=
   Soa.Sk.Sk.lit
     { guard := none, emptyNone := false, nullNone := false, md := none, unsafeBlk := false }
@@ -230,6 +256,7 @@ def exp_PRefMut_a_to_owned : Sk :=
         [Soa.Sk.Arg.other ["&", "self", ".", "§"]]))
     false
 
+-- scope C15
 def exp_PRefMut_a_replace : Sk :=
   Soa.Sk.Sk.lets
     { guard := none, emptyNone := false, nullNone := false, md := none, unsafeBlk := false }
@@ -240,6 +267,7 @@ def exp_PRefMut_a_replace : Sk :=
     false
     (some 0)
 
+-- scope C10
 def exp_PPtr_as_mut_ptr : Sk :=
   Soa.Sk.Sk.lit
     { guard := none, emptyNone := false, nullNone := false, md := none, unsafeBlk := false }
@@ -248,11 +276,13 @@ def exp_PPtr_as_mut_ptr : Sk :=
     (Soa.Sk.Item.init (Soa.Sk.FE.call "as_mut_ptr" [] (Soa.Sk.Post.none)))
     false
 
+-- scope C10
 def exp_PPtr_is_null : Sk :=
   Soa.Sk.Sk.orFold
     (Soa.Sk.Item.stmt (Soa.Sk.FE.call "is_null" [] (Soa.Sk.Post.none)))
     (Soa.Sk.Item.stmt (Soa.Sk.FE.call "is_null" [] (Soa.Sk.Post.none)))
 
+-- scope C10
 def exp_PPtr_as_ref : Sk :=
   Soa.Sk.Sk.lit
     { guard := none, emptyNone := false, nullNone := true, md := none, unsafeBlk := false }
@@ -261,6 +291,7 @@ def exp_PPtr_as_ref : Sk :=
     (Soa.Sk.Item.init (Soa.Sk.FE.call "as_ref" [] (Soa.Sk.Post.expectNonNull)))
     true
 
+-- scope C10
 def exp_PPtr_offset : Sk :=
   Soa.Sk.Sk.lit
     { guard := none, emptyNone := false, nullNone := false, md := none, unsafeBlk := false }
@@ -269,6 +300,7 @@ def exp_PPtr_offset : Sk :=
     (Soa.Sk.Item.init (Soa.Sk.FE.call "offset" [Soa.Sk.Arg.param 0] (Soa.Sk.Post.none)))
     false
 
+-- scope C10
 def exp_PPtr_wrapping_offset : Sk :=
   Soa.Sk.Sk.lit
     { guard := none, emptyNone := false, nullNone := false, md := none, unsafeBlk := false }
@@ -277,6 +309,7 @@ def exp_PPtr_wrapping_offset : Sk :=
     (Soa.Sk.Item.init (Soa.Sk.FE.call "wrapping_offset" [Soa.Sk.Arg.param 0] (Soa.Sk.Post.none)))
     false
 
+-- scope C10
 def exp_PPtr_add : Sk :=
   Soa.Sk.Sk.lit
     { guard := none, emptyNone := false, nullNone := false, md := none, unsafeBlk := false }
@@ -285,6 +318,7 @@ def exp_PPtr_add : Sk :=
     (Soa.Sk.Item.init (Soa.Sk.FE.call "add" [Soa.Sk.Arg.param 0] (Soa.Sk.Post.none)))
     false
 
+-- scope C10
 def exp_PPtr_sub : Sk :=
   Soa.Sk.Sk.lit
     { guard := none, emptyNone := false, nullNone := false, md := none, unsafeBlk := false }
@@ -293,6 +327,7 @@ def exp_PPtr_sub : Sk :=
     (Soa.Sk.Item.init (Soa.Sk.FE.call "sub" [Soa.Sk.Arg.param 0] (Soa.Sk.Post.none)))
     false
 
+-- scope C10
 def exp_PPtr_wrapping_add : Sk :=
   Soa.Sk.Sk.lit
     { guard := none, emptyNone := false, nullNone := false, md := none, unsafeBlk := false }
@@ -301,6 +336,7 @@ def exp_PPtr_wrapping_add : Sk :=
     (Soa.Sk.Item.init (Soa.Sk.FE.call "wrapping_add" [Soa.Sk.Arg.param 0] (Soa.Sk.Post.none)))
     false
 
+-- scope C10
 def exp_PPtr_wrapping_sub : Sk :=
   Soa.Sk.Sk.lit
     { guard := none, emptyNone := false, nullNone := false, md := none, unsafeBlk := false }
@@ -309,6 +345,7 @@ def exp_PPtr_wrapping_sub : Sk :=
     (Soa.Sk.Item.init (Soa.Sk.FE.call "wrapping_sub" [Soa.Sk.Arg.param 0] (Soa.Sk.Post.none)))
     false
 
+-- scope C10
 def exp_PPtr_read : Sk :=
   Soa.Sk.Sk.lit
     { guard := none, emptyNone := false, nullNone := false, md := none, unsafeBlk := false }
@@ -317,6 +354,7 @@ def exp_PPtr_read : Sk :=
     (Soa.Sk.Item.init (Soa.Sk.FE.call "read" [] (Soa.Sk.Post.none)))
     false
 
+-- scope C10
 def exp_PPtr_read_volatile : Sk :=
   Soa.Sk.Sk.lit
     { guard := none, emptyNone := false, nullNone := false, md := none, unsafeBlk := false }
@@ -325,6 +363,7 @@ def exp_PPtr_read_volatile : Sk :=
     (Soa.Sk.Item.init (Soa.Sk.FE.call "read_volatile" [] (Soa.Sk.Post.none)))
     false
 
+-- scope C10
 def exp_PPtr_read_unaligned : Sk :=
   Soa.Sk.Sk.lit
     { guard := none, emptyNone := false, nullNone := false, md := none, unsafeBlk := false }
@@ -333,6 +372,7 @@ def exp_PPtr_read_unaligned : Sk :=
     (Soa.Sk.Item.init (Soa.Sk.FE.call "read_unaligned" [] (Soa.Sk.Post.none)))
     false
 
+-- scope C10
 def exp_PPtrMut_as_ptr : Sk :=
   Soa.Sk.Sk.lit
     { guard := none, emptyNone := false, nullNone := false, md := none, unsafeBlk := false }
@@ -341,11 +381,13 @@ def exp_PPtrMut_as_ptr : Sk :=
     (Soa.Sk.Item.init (Soa.Sk.FE.call "as_ptr" [] (Soa.Sk.Post.none)))
     false
 
+-- scope C10
 def exp_PPtrMut_is_null : Sk :=
   Soa.Sk.Sk.orFold
     (Soa.Sk.Item.stmt (Soa.Sk.FE.call "is_null" [] (Soa.Sk.Post.none)))
     (Soa.Sk.Item.stmt (Soa.Sk.FE.call "is_null" [] (Soa.Sk.Post.none)))
 
+-- scope C10
 def exp_PPtrMut_as_ref : Sk :=
   Soa.Sk.Sk.lit
     { guard := none, emptyNone := false, nullNone := true, md := none, unsafeBlk := false }
@@ -354,6 +396,7 @@ def exp_PPtrMut_as_ref : Sk :=
     (Soa.Sk.Item.init (Soa.Sk.FE.call "as_ref" [] (Soa.Sk.Post.expectNonNull)))
     true
 
+-- scope C10
 def exp_PPtrMut_as_mut : Sk :=
   Soa.Sk.Sk.lit
     { guard := none, emptyNone := false, nullNone := true, md := none, unsafeBlk := false }
@@ -362,6 +405,7 @@ def exp_PPtrMut_as_mut : Sk :=
     (Soa.Sk.Item.init (Soa.Sk.FE.call "as_mut" [] (Soa.Sk.Post.expectNonNull)))
     true
 
+-- scope C10
 def exp_PPtrMut_offset : Sk :=
   Soa.Sk.Sk.lit
     { guard := none, emptyNone := false, nullNone := false, md := none, unsafeBlk := false }
@@ -370,6 +414,7 @@ def exp_PPtrMut_offset : Sk :=
     (Soa.Sk.Item.init (Soa.Sk.FE.call "offset" [Soa.Sk.Arg.param 0] (Soa.Sk.Post.none)))
     false
 
+-- scope C10
 def exp_PPtrMut_wrapping_offset : Sk :=
   Soa.Sk.Sk.lit
     { guard := none, emptyNone := false, nullNone := false, md := none, unsafeBlk := false }
@@ -378,6 +423,7 @@ def exp_PPtrMut_wrapping_offset : Sk :=
     (Soa.Sk.Item.init (Soa.Sk.FE.call "wrapping_offset" [Soa.Sk.Arg.param 0] (Soa.Sk.Post.none)))
     false
 
+-- scope C10
 def exp_PPtrMut_add : Sk :=
   Soa.Sk.Sk.lit
     { guard := none, emptyNone := false, nullNone := false, md := none, unsafeBlk := false }
@@ -386,6 +432,7 @@ def exp_PPtrMut_add : Sk :=
     (Soa.Sk.Item.init (Soa.Sk.FE.call "add" [Soa.Sk.Arg.param 0] (Soa.Sk.Post.none)))
     false
 
+-- scope C10
 def exp_PPtrMut_sub : Sk :=
   Soa.Sk.Sk.lit
     { guard := none, emptyNone := false, nullNone := false, md := none, unsafeBlk := false }
@@ -394,6 +441,7 @@ def exp_PPtrMut_sub : Sk :=
     (Soa.Sk.Item.init (Soa.Sk.FE.call "sub" [Soa.Sk.Arg.param 0] (Soa.Sk.Post.none)))
     false
 
+-- scope C10
 def exp_PPtrMut_wrapping_add : Sk :=
   Soa.Sk.Sk.lit
     { guard := none, emptyNone := false, nullNone := false, md := none, unsafeBlk := false }
@@ -402,6 +450,7 @@ def exp_PPtrMut_wrapping_add : Sk :=
     (Soa.Sk.Item.init (Soa.Sk.FE.call "wrapping_add" [Soa.Sk.Arg.param 0] (Soa.Sk.Post.none)))
     false
 
+-- scope C10
 def exp_PPtrMut_wrapping_sub : Sk :=
   Soa.Sk.Sk.lit
     { guard := none, emptyNone := false, nullNone := false, md := none, unsafeBlk := false }
@@ -410,6 +459,7 @@ def exp_PPtrMut_wrapping_sub : Sk :=
     (Soa.Sk.Item.init (Soa.Sk.FE.call "wrapping_sub" [Soa.Sk.Arg.param 0] (Soa.Sk.Post.none)))
     false
 
+-- scope C10
 def exp_PPtrMut_read : Sk :=
   Soa.Sk.Sk.lit
     { guard := none, emptyNone := false, nullNone := false, md := none, unsafeBlk := false }
@@ -418,6 +468,7 @@ def exp_PPtrMut_read : Sk :=
     (Soa.Sk.Item.init (Soa.Sk.FE.call "read" [] (Soa.Sk.Post.none)))
     false
 
+-- scope C10
 def exp_PPtrMut_read_volatile : Sk :=
   Soa.Sk.Sk.lit
     { guard := none, emptyNone := false, nullNone := false, md := none, unsafeBlk := false }
@@ -426,6 +477,7 @@ def exp_PPtrMut_read_volatile : Sk :=
     (Soa.Sk.Item.init (Soa.Sk.FE.call "read_volatile" [] (Soa.Sk.Post.none)))
     false
 
+-- scope C10
 def exp_PPtrMut_read_unaligned : Sk :=
   Soa.Sk.Sk.lit
     { guard := none, emptyNone := false, nullNone := false, md := none, unsafeBlk := false }
@@ -434,6 +486,7 @@ def exp_PPtrMut_read_unaligned : Sk :=
     (Soa.Sk.Item.init (Soa.Sk.FE.call "read_unaligned" [] (Soa.Sk.Post.none)))
     false
 
+-- scope C10
 def exp_PPtrMut_write : Sk :=
   Soa.Sk.Sk.stmts
     { guard := none, emptyNone := false, nullNone := false, md := none, unsafeBlk := true }
@@ -441,6 +494,7 @@ def exp_PPtrMut_write : Sk :=
     (Soa.Sk.Item.stmt (Soa.Sk.FE.call "write" [Soa.Sk.Arg.moveIn 0] (Soa.Sk.Post.none)))
     (some 0)
 
+-- scope C10
 def exp_PPtrMut_write_volatile : Sk :=
   Soa.Sk.Sk.stmts
     { guard := none, emptyNone := false, nullNone := false, md := none, unsafeBlk := true }
@@ -448,6 +502,7 @@ def exp_PPtrMut_write_volatile : Sk :=
     (Soa.Sk.Item.stmt (Soa.Sk.FE.call "write_volatile" [Soa.Sk.Arg.moveIn 0] (Soa.Sk.Post.none)))
     (some 0)
 
+-- scope C10
 def exp_PPtrMut_write_unaligned : Sk :=
   Soa.Sk.Sk.stmts
     { guard := none, emptyNone := false, nullNone := false, md := none, unsafeBlk := true }
@@ -455,6 +510,7 @@ def exp_PPtrMut_write_unaligned : Sk :=
     (Soa.Sk.Item.stmt (Soa.Sk.FE.call "write_unaligned" [Soa.Sk.Arg.moveIn 0] (Soa.Sk.Post.none)))
     (some 0)
 
+-- scope C10
 def exp_PRef_a_as_ptr : Sk :=
   Soa.Sk.Sk.lit
     { guard := none, emptyNone := false, nullNone := false, md := none, unsafeBlk := false }
@@ -463,6 +519,7 @@ def exp_PRef_a_as_ptr : Sk :=
     (Soa.Sk.Item.init (Soa.Sk.FE.call "as_ptr" [] (Soa.Sk.Post.none)))
     false
 
+-- scope C10
 def exp_PRefMut_a_as_ptr : Sk :=
   Soa.Sk.Sk.lit
     { guard := none, emptyNone := false, nullNone := false, md := none, unsafeBlk := false }
@@ -471,6 +528,7 @@ def exp_PRefMut_a_as_ptr : Sk :=
     (Soa.Sk.Item.init (Soa.Sk.FE.call "as_ptr" [] (Soa.Sk.Post.none)))
     false
 
+-- scope C10
 def exp_PRefMut_a_as_mut_ptr : Sk :=
   Soa.Sk.Sk.lit
     { guard := none, emptyNone := false, nullNone := false, md := none, unsafeBlk := false }
@@ -479,18 +537,21 @@ def exp_PRefMut_a_as_mut_ptr : Sk :=
     (Soa.Sk.Item.init (Soa.Sk.FE.call "as_mut_ptr" [] (Soa.Sk.Post.none)))
     false
 
+-- scope C05
 def exp_PSlice_a_len : Sk :=
   Soa.Sk.Sk.firstChecked
     "len"
     (Soa.Sk.Item.dbgAssertEq (Soa.Sk.FE.call "len" [] (Soa.Sk.Post.none)) "len")
     (Soa.Sk.Item.dbgAssertEq (Soa.Sk.FE.call "len" [] (Soa.Sk.Post.none)) "len")
 
+-- scope C05
 def exp_PSlice_a_is_empty : Sk :=
   Soa.Sk.Sk.firstChecked
     "is_empty"
     (Soa.Sk.Item.dbgAssertEq (Soa.Sk.FE.call "is_empty" [] (Soa.Sk.Post.none)) "empty")
     (Soa.Sk.Item.dbgAssertEq (Soa.Sk.FE.call "is_empty" [] (Soa.Sk.Post.none)) "empty")
 
+-- scope C05
 def exp_PSlice_a_first : Sk :=
   Soa.Sk.Sk.lets
     { guard := none, emptyNone := true, nullNone := false, md := none, unsafeBlk := false }
@@ -501,6 +562,7 @@ def exp_PSlice_a_first : Sk :=
     true
     none
 
+-- scope C05
 def exp_PSlice_a_split_first : Sk :=
   Soa.Sk.Sk.pairs
     { guard := none, emptyNone := true, nullNone := false, md := none, unsafeBlk := false }
@@ -512,6 +574,7 @@ def exp_PSlice_a_split_first : Sk :=
     "_2"
     true
 
+-- scope C05
 def exp_PSlice_a_last : Sk :=
   Soa.Sk.Sk.lets
     { guard := none, emptyNone := true, nullNone := false, md := none, unsafeBlk := false }
@@ -522,6 +585,7 @@ def exp_PSlice_a_last : Sk :=
     true
     none
 
+-- scope C05
 def exp_PSlice_a_split_last : Sk :=
   Soa.Sk.Sk.pairs
     { guard := none, emptyNone := true, nullNone := false, md := none, unsafeBlk := false }
@@ -533,6 +597,7 @@ def exp_PSlice_a_split_last : Sk :=
     "_2"
     true
 
+-- scope C05
 def exp_PSlice_a_split_at : Sk :=
   Soa.Sk.Sk.pairs
     { guard := none, emptyNone := false, nullNone := false, md := none, unsafeBlk := false }
@@ -544,6 +609,7 @@ def exp_PSlice_a_split_at : Sk :=
     "_2"
     false
 
+-- scope C05
 def exp_PSlice_a_reborrow : Sk :=
   Soa.Sk.Sk.lit
     { guard := none, emptyNone := false, nullNone := false, md := none, unsafeBlk := false }
@@ -552,6 +618,7 @@ def exp_PSlice_a_reborrow : Sk :=
     (Soa.Sk.Item.init (Soa.Sk.FE.call "reborrow" [] (Soa.Sk.Post.none)))
     false
 
+-- scope C10
 def exp_PSlice_a_as_ptr : Sk :=
   Soa.Sk.Sk.lit
     { guard := none, emptyNone := false, nullNone := false, md := none, unsafeBlk := false }
@@ -560,6 +627,7 @@ def exp_PSlice_a_as_ptr : Sk :=
     (Soa.Sk.Item.init (Soa.Sk.FE.call "as_ptr" [] (Soa.Sk.Post.none)))
     false
 
+-- scope C10
 def exp_PSlice_a_from_raw_parts : Sk :=
   Soa.Sk.Sk.lit
     { guard := none, emptyNone := false, nullNone := false, md := none, unsafeBlk := false }
@@ -572,6 +640,7 @@ def exp_PSlice_a_from_raw_parts : Sk :=
       (Soa.Sk.FE.path ["§TSlice", "::", "from_raw_parts"] [Soa.Sk.Arg.field 0, Soa.Sk.Arg.param 1]))
     false
 
+-- scope C01
 def exp_PSlice_a_to_vec : Sk :=
   Soa.Sk.Sk.lit
     { guard := none, emptyNone := false, nullNone := false, md := none, unsafeBlk := false }
@@ -580,6 +649,7 @@ def exp_PSlice_a_to_vec : Sk :=
     (Soa.Sk.Item.init (Soa.Sk.FE.call "to_vec" [] (Soa.Sk.Post.none)))
     false
 
+-- scope C05
 def exp_PSliceMut_a_as_ref : Sk :=
   Soa.Sk.Sk.lit
     { guard := none, emptyNone := false, nullNone := false, md := none, unsafeBlk := false }
@@ -588,18 +658,21 @@ def exp_PSliceMut_a_as_ref : Sk :=
     (Soa.Sk.Item.init (Soa.Sk.FE.call "as_ref" [] (Soa.Sk.Post.none)))
     false
 
+-- scope C05
 def exp_PSliceMut_a_len : Sk :=
   Soa.Sk.Sk.firstChecked
     "len"
     (Soa.Sk.Item.dbgAssertEq (Soa.Sk.FE.call "len" [] (Soa.Sk.Post.none)) "len")
     (Soa.Sk.Item.dbgAssertEq (Soa.Sk.FE.call "len" [] (Soa.Sk.Post.none)) "len")
 
+-- scope C05
 def exp_PSliceMut_a_is_empty : Sk :=
   Soa.Sk.Sk.firstChecked
     "is_empty"
     (Soa.Sk.Item.dbgAssertEq (Soa.Sk.FE.call "is_empty" [] (Soa.Sk.Post.none)) "empty")
     (Soa.Sk.Item.dbgAssertEq (Soa.Sk.FE.call "is_empty" [] (Soa.Sk.Post.none)) "empty")
 
+-- scope C05
 def exp_PSliceMut_a_first_mut : Sk :=
   Soa.Sk.Sk.lets
     { guard := none, emptyNone := true, nullNone := false, md := none, unsafeBlk := false }
@@ -610,6 +683,7 @@ def exp_PSliceMut_a_first_mut : Sk :=
     true
     none
 
+-- scope C05
 def exp_PSliceMut_a_split_first_mut : Sk :=
   Soa.Sk.Sk.pairs
     { guard := none, emptyNone := true, nullNone := false, md := none, unsafeBlk := false }
@@ -621,6 +695,7 @@ def exp_PSliceMut_a_split_first_mut : Sk :=
     "_slice_1"
     true
 
+-- scope C05
 def exp_PSliceMut_a_last_mut : Sk :=
   Soa.Sk.Sk.lets
     { guard := none, emptyNone := true, nullNone := false, md := none, unsafeBlk := false }
@@ -631,6 +706,7 @@ def exp_PSliceMut_a_last_mut : Sk :=
     true
     none
 
+-- scope C05
 def exp_PSliceMut_a_split_last_mut : Sk :=
   Soa.Sk.Sk.pairs
     { guard := none, emptyNone := true, nullNone := false, md := none, unsafeBlk := false }
@@ -642,6 +718,7 @@ def exp_PSliceMut_a_split_last_mut : Sk :=
     "_slice_1"
     true
 
+-- scope C05
 def exp_PSliceMut_a_split_at_mut : Sk :=
   Soa.Sk.Sk.pairs
     { guard := none, emptyNone := false, nullNone := false, md := none, unsafeBlk := false }
@@ -659,6 +736,7 @@ def exp_PSliceMut_a_split_at_mut : Sk :=
     "_slice_2"
     false
 
+-- scope C05
 def exp_PSliceMut_a_swap : Sk :=
   Soa.Sk.Sk.stmts
     { guard := none, emptyNone := false, nullNone := false, md := none, unsafeBlk := false }
@@ -666,6 +744,7 @@ def exp_PSliceMut_a_swap : Sk :=
     (Soa.Sk.Item.stmt (Soa.Sk.FE.call "swap" [Soa.Sk.Arg.param 0, Soa.Sk.Arg.param 1] (Soa.Sk.Post.none)))
     none
 
+-- scope C05
 def exp_PSliceMut_a_as_slice : Sk :=
   Soa.Sk.Sk.lit
     { guard := none, emptyNone := false, nullNone := false, md := none, unsafeBlk := false }
@@ -674,6 +753,7 @@ def exp_PSliceMut_a_as_slice : Sk :=
     (Soa.Sk.Item.init (Soa.Sk.FE.call "as_slice" [] (Soa.Sk.Post.none)))
     false
 
+-- scope C05
 def exp_PSliceMut_a_reborrow : Sk :=
   Soa.Sk.Sk.lit
     { guard := none, emptyNone := false, nullNone := false, md := none, unsafeBlk := false }
@@ -682,6 +762,7 @@ def exp_PSliceMut_a_reborrow : Sk :=
     (Soa.Sk.Item.init (Soa.Sk.FE.call "reborrow" [] (Soa.Sk.Post.none)))
     false
 
+-- scope C10
 def exp_PSliceMut_a_as_ptr : Sk :=
   Soa.Sk.Sk.lit
     { guard := none, emptyNone := false, nullNone := false, md := none, unsafeBlk := false }
@@ -690,6 +771,7 @@ def exp_PSliceMut_a_as_ptr : Sk :=
     (Soa.Sk.Item.init (Soa.Sk.FE.call "as_ptr" [] (Soa.Sk.Post.none)))
     false
 
+-- scope C10
 def exp_PSliceMut_a_as_mut_ptr : Sk :=
   Soa.Sk.Sk.lit
     { guard := none, emptyNone := false, nullNone := false, md := none, unsafeBlk := false }
@@ -698,6 +780,7 @@ def exp_PSliceMut_a_as_mut_ptr : Sk :=
     (Soa.Sk.Item.init (Soa.Sk.FE.call "as_mut_ptr" [] (Soa.Sk.Post.none)))
     false
 
+-- scope C10
 def exp_PSliceMut_a_from_raw_parts_mut : Sk :=
   Soa.Sk.Sk.lit
     { guard := none, emptyNone := false, nullNone := false, md := none, unsafeBlk := false }
@@ -710,6 +793,7 @@ def exp_PSliceMut_a_from_raw_parts_mut : Sk :=
       (Soa.Sk.FE.path ["§TSliceMut", "::", "from_raw_parts_mut"] [Soa.Sk.Arg.field 0, Soa.Sk.Arg.param 1]))
     false
 
+-- scope C07
 def exp_PSliceMut_a_private_apply_permutation : Sk :=
   Soa.Sk.Sk.stmts
     { guard := none, emptyNone := false, nullNone := false, md := none, unsafeBlk := false }
@@ -717,6 +801,7 @@ def exp_PSliceMut_a_private_apply_permutation : Sk :=
     (Soa.Sk.Item.stmt (Soa.Sk.FE.call "__private_apply_permutation" [Soa.Sk.Arg.param 0] (Soa.Sk.Post.none)))
     none
 
+-- scope C01
 def exp_PSliceMut_a_to_vec : Sk :=
   Soa.Sk.Sk.lit
     { guard := none, emptyNone := false, nullNone := false, md := none, unsafeBlk := false }
